@@ -204,6 +204,12 @@ struct ExecStats {
         bool multi_inflight = false, odd_cut_msg = false, flush_with_2 = false, returned_other = false;
         int rejected = 0, rejected_with_inflight = 0, valid_after_reject = 0;
         int completed = 0, calls = 0;
+        uint64_t obs = 1469598103934665603ULL; // running hash of everything observable (which context came back when, status, error, digest, rc)
+        void observe(const void *p, size_t n)
+        {
+                for (size_t i = 0; i < n; i++) { obs ^= ((const uint8_t *) p)[i]; obs *= 1099511628211ULL; }
+        }
+        void observe(uint64_t v) { observe(&v, 8); }
 };
 
 // returns true if the property holds on this history
@@ -260,6 +266,11 @@ static inline bool execute(const Case &cs, const isal::HashFamily &f, pbt::Ctx &
                 if (!m->held) return !failx("returned-not-held", "context handed back although the manager does not hold it (returned twice?)");
                 m->held = false;
                 if (submitted && m != submitted) st.returned_other = true;
+                st.observe((uint64_t) (m - &M[0]));
+                st.observe(ctx_status(f.algo, r));
+                st.observe((uint64_t) (uint32_t) ctx_error(f.algo, r));
+                st.observe(ctx_total(f.algo, r));
+                if (m->last) st.observe(ctx_digest(f.algo, r), D.digest_bytes);
                 (void) from_flush;
                 uint32_t stt = ctx_status(f.algo, r);
                 if (stt & ISAL_HASH_CTX_STS_PROCESSING)
@@ -387,6 +398,7 @@ static inline bool execute(const Case &cs, const isal::HashFamily &f, pbt::Ctx &
                         }
                         if (rc != 0)
                                 if (failx("rc-valid-submit", "valid submit returned " + std::to_string(rc) + " (cmd " + std::to_string(ci) + ")")) return false;
+                        st.observe((uint64_t) rc * 2 + (r ? 1 : 0));
                         if (r && !on_return(r, &m, false)) return false;
                         if (!compare(r, false, "submit")) return false;
                         int hc = held_count();
@@ -418,6 +430,7 @@ static inline bool execute(const Case &cs, const isal::HashFamily &f, pbt::Ctx &
                                 if (failx("flush-empty-returned", "flush on an empty manager returned a context")) return false;
                         if (before > 0 && !r)
                                 if (failx("flush-stranded", "flush returned NULL while the manager holds " + std::to_string(before) + " contexts")) return false;
+                        st.observe((uint64_t) rc * 2 + (r ? 1 : 0));
                         if (r && !on_return(r, nullptr, true)) return false;
                         if (!compare(r, false, "flush")) return false;
                 } else { // K_BAD
@@ -475,6 +488,8 @@ static inline bool execute(const Case &cs, const isal::HashFamily &f, pbt::Ctx &
                         if (r != cptr)
                                 if (failx("reject-not-returned", "rejected submit did not hand the context straight back")) return false;
                         int err = ctx_error(f.algo, cptr);
+                        st.observe((uint64_t) rc * 2 + (r == cptr ? 1 : 0));
+                        st.observe((uint64_t) (uint32_t) err);
                         bool okerr = false;
                         for (int a : accept) okerr |= (a == err);
                         if (!okerr)
